@@ -25,6 +25,10 @@ Inductive ihop :=
 | IConc (is : list nat)       (* bulks submitted concurrently, all acknowledged; listed in the order in
                                  which they reserved their docs offsets (= lock order when the writer's
                                  mutex is in place) *)
+| IFault (i : nat) (in_meta : bool) (cut : nat) (acked : bool)
+                              (* one write of the bulk failed with an I/O error after `cut` bytes;
+                                 acked = what the real store answered *)
+| IObs                        (* fetch + search in the running store, no restart *)
 | ICrashIn (i : nat) (k t kd km : nat)
 | IPower
 | IRestart
@@ -36,6 +40,8 @@ Definition hops_of (bs : list bulk) (o : ihop) : list hop :=
   match o with
   | IBulk i => [HBulk (nth i bs dummy_bulk)]
   | IConc is => map (fun i => HBulk (nth i bs dummy_bulk)) is
+  | IFault i fm cut _ => [HFault (nth i bs dummy_bulk) fm cut]
+  | IObs => []
   | ICrashIn i k t kd km => [HCrashIn (nth i bs dummy_bulk) k t kd km]
   | IPower => [HPower]
   | IRestart => [HRestart]
@@ -126,6 +132,7 @@ Section Run.
             let f' := option_map (fun x => step_ops o s s' ++ x) f in
             match o, s_proc s' with
             | IRestart, Some p => (MUp (s_disk s') p :: l, f')
+            | IObs, Some p => (MUp (s_disk s') p :: l, f')
             | _, _ => (l, f')
             end
         | _ => ([MDied], None)
@@ -154,6 +161,7 @@ Definition case_agrees (c : case) : bool :=
   | CHist bs h obs ops exts =>
       let '(mo, fin) := run_obs bs st0 h in
       forall2b (obs_agree bs) mo obs &&
+      forallb (fun o => match o with IFault _ _ _ a => negb a | _ => true end) h &&
       match fin with
       | Some mops => list_eqb pop_eqb (map proj mops) ops
       | None => true
@@ -202,6 +210,24 @@ Definition search_sound (bs : list bulk) (sub : list nat) (ss : list (N * list N
    unless the same bulk is submitted again) *)
 Record track := Track { up : bool; acked : list nat; tried : list nat; pres : list nat; abs : list nat }.
 
+(* the checks at one observation; returns the new pres/abs lists *)
+Definition obs_ok (bs : list bulk) (tr : track) (fs : list (N * fetched)) (ss : list (N * list N)) : bool :=
+  let B i := nth i bs dummy_bulk in
+  (* acknowledged bulks: intact *)
+  forallb (fun i => bulk_present fs ss (B i)) (acked tr) &&
+  (* interrupted / failed bulks: all or nothing, with their own bytes *)
+  forallb (fun i => bulk_present fs ss (B i) || bulk_absent fs ss (B i)) (tried tr) &&
+  (* ... and the verdict of an earlier observation stands *)
+  forallb (fun i => bulk_present fs ss (B i)) (pres tr) &&
+  forallb (fun i => bulk_absent fs ss (B i)) (abs tr) &&
+  search_sound bs (acked tr ++ tried tr) ss.
+
+Definition obs_track (bs : list bulk) (tr : track) (fs : list (N * fetched)) (ss : list (N * list N)) : track :=
+  let B i := nth i bs dummy_bulk in
+  Track true (acked tr) (tried tr)
+        (filter (fun i => bulk_present fs ss (B i)) (tried tr))
+        (filter (fun i => negb (memn i (acked tr)) && bulk_absent fs ss (B i)) (tried tr)).
+
 Fixpoint spec_walk (bs : list bulk) (h : list ihop) (obs : list iobs) (tr : track) : bool :=
   match h with
   | [] => match obs with [] => true | _ => false end
@@ -212,26 +238,26 @@ Fixpoint spec_walk (bs : list bulk) (h : list ihop) (obs : list iobs) (tr : trac
       if up tr then spec_walk bs r obs (Track true (acked tr ++ is) (tried tr) (pres tr)
                                               (filter (fun y => negb (memn y is)) (abs tr)))
       else spec_walk bs r obs tr
+  | IFault i _ _ a :: r =>
+      (* a bulk whose write failed must not be acknowledged *)
+      if up tr then negb a &&
+                    spec_walk bs r obs (Track true (acked tr) (tried tr ++ [i]) (pres tr) (remn i (abs tr)))
+      else spec_walk bs r obs tr
   | ICrashIn i _ _ _ _ :: r =>
       if up tr then spec_walk bs r obs (Track false (acked tr) (tried tr ++ [i]) (pres tr) (remn i (abs tr)))
       else spec_walk bs r obs tr
   | IPower :: r => spec_walk bs r obs (Track false (acked tr) (tried tr) (pres tr) (abs tr))
   | IRestartCrash :: r => spec_walk bs r obs (Track false (acked tr) (tried tr) (pres tr) (abs tr))
+  | IObs :: r =>
+      if up tr then
+        match obs with
+        | IUp fs ss :: obs' => obs_ok bs tr fs ss && spec_walk bs r obs' (obs_track bs tr fs ss)
+        | _ => false
+        end
+      else spec_walk bs r obs tr
   | IRestart :: r =>
       match obs with
-      | IUp fs ss :: obs' =>
-          let B i := nth i bs dummy_bulk in
-          (* acknowledged bulks: intact *)
-          forallb (fun i => bulk_present fs ss (B i)) (acked tr) &&
-          (* interrupted bulks: all or nothing, with their own bytes *)
-          forallb (fun i => bulk_present fs ss (B i) || bulk_absent fs ss (B i)) (tried tr) &&
-          (* ... and the verdict of an earlier start stands *)
-          forallb (fun i => bulk_present fs ss (B i)) (pres tr) &&
-          forallb (fun i => bulk_absent fs ss (B i)) (abs tr) &&
-          search_sound bs (acked tr ++ tried tr) ss &&
-          let np := filter (fun i => bulk_present fs ss (B i)) (tried tr) in
-          let na := filter (fun i => negb (memn i (acked tr)) && bulk_absent fs ss (B i)) (tried tr) in
-          spec_walk bs r obs' (Track true (acked tr) (tried tr) np na)
+      | IUp fs ss :: obs' => obs_ok bs tr fs ss && spec_walk bs r obs' (obs_track bs tr fs ss)
       | _ => false        (* the store always comes back up *)
       end
   end.
